@@ -9,6 +9,7 @@ import JunoModel.C03.ProofsApi
 import JunoModel.C03.ProofsLegacySysX
 import JunoModel.C03.ProofsKeys
 import JunoModel.C03.ProofsRpc
+import JunoModel.C03.ProofsCasmV2
 /-!
 C03 — property theorems (statements only; helper lemmas are in `Proofs*.lean`; statements about
 proposed patches that are not in the tree are in `ProofsPatch.lean` and are NOT obligations).
@@ -775,16 +776,18 @@ theorem last_updated_block_differs_on_noop_zero_write :
 historical, the block of a historical reader is not consulted: the blake2s compiled class hash that
 came with the declaration of the class in the node's chain (`v2Of`: the declared hash when declared
 under protocol ≥ 0.14.1, else the hash juno precomputed), not-found for a class the chain does not
-declare. PARTIAL: same hypotheses as `casm_read_partial` (they carry the metadata invariant). -/
-theorem casm_v2_read_partial {σ : Type} (be : Backend σ) (hmf : be.migFix = false) (ops : List Op) (bn : BNode σ)
+declare. Round 5: the hypothesis on the hashes migrations carry (`MigOwnHash`, needed by
+`casm_read_partial`) is GONE — the record does not depend on them (`ProofsCasmV2.lean`: the metadata
+invariant without that clause); what remains is the input well-formedness `CasmStep` (a Sierra class is
+declared once, migrations only under protocol ≥ 0.14.1 and not of a class the same diff declares).
+Replaces `casm_v2_read_partial`. -/
+theorem casm_v2_read_correct {σ : Type} (be : Backend σ) (hmf : be.migFix = false) (ops : List Op) (bn : BNode σ)
     (hb : brun be (BNode.init be) ops = some bn)
-    (hok : OpsOK (fun ch d => CasmStep ch d ∧ MigOwnHash ch d) ops []) (fl : Option Nat) (v : View) (c : CHash)
+    (hok : OpsOK (fun ch d => CasmStep ch d) ops []) (fl : Option Nat) (v : View) (c : CHash)
     (hv : (bn.resolve be fl v).isSome = true) :
     bn.readCasmV2 be fl v c = some (match v2Of (chainOf ops) c with | some x => .ok x | none => .notfound) := by
   obtain ⟨nd, hr, hR⟩ := brun_refines_init be ops bn hb
-  have hok' : OpsOK (fun ch d => CasmStep ch d ∧ MigVal ch d) ops [] :=
-    OpsOK.mono (fun ch d h => ⟨h.1, migVal_of_ownHash ch d h.2⟩) ops [] hok
-  have hinv := run_minv be hmf ops (Node.init be) nd minv_init hok' hr
+  have hinv := run_minvw be hmf ops (Node.init be) nd minvw_init hok hr
   obtain ⟨w, hw⟩ := Option.isSome_iff_exists.mp hv
   simp only [BNode.readCasmV2, hw, hR.casm, hinv.recs c, ← node_chain_chainOf be ops nd hr, ← metaOf_v2]
   cases metaOf nd.chain c <;> rfl
@@ -872,6 +875,23 @@ theorem history_readers_on_bytes (cfg : Cfg) (ops : List Op) (nd : Node NState)
     ops (Node.init (newBackend cfg)) nd keysInv_init hok hrun
   exact ⟨iter_encodeHist bk hb key hk _ hI.1, valueAtBytes_eq bk hb key hk _ hI.1 n hn,
     lastUpdatedBytes_eq bk hb key hk _ hI.1 n hn⟩
+
+/-- THE LEGACY LOG BUCKETS ON BYTES (Deprecated*History; `bk` = their three bucket bytes): in every reachable
+state of the legacy backend a bounded iterator over the key prefix of a contract [and slot] yields exactly
+the log entries of `lget logs key`, in order, and `lastUpdatedBlockNumber` (the one legacy reader that uses
+a prefix-bounded iterator with `Seek` / `Prev`; `valueAt` walks with `Next` and re-checks the prefix) on
+those bytes is `lastUpdatedOf` on the list. -/
+theorem legacy_logs_on_bytes (ops : List Op) (nd : Node LState)
+    (hrun : run legacyBackend (Node.init legacyBackend) ops = some nd)
+    (hok : OpsOK (fun ch d => d.Felts ∧ ch.length < 2 ^ 64) ops [])
+    (bk : BucketIds) (hb : bk.HistOK) (key : HKey) (hk : key.Felts) (n : Nat) (hn : n < 2 ^ 64) :
+    (encodeHist bk nd.st.logs).iter (hkeyBytes bk key) = encEntries bk key (lget nd.st.logs key) ∧
+    lastUpdatedBytes (encodeHist bk nd.st.logs) (hkeyBytes bk key) n = lastUpdatedOf (lget nd.st.logs key) n := by
+  have hI := run_invariant' legacyBackend KeysInvL (fun ch d => d.Felts ∧ ch.length < 2 ^ 64)
+    (fun ch s s' d hI hP hu => keysInvL_store ch s s' d hI hP hu)
+    (fun d rest s s' hI hr => keysInvL_revert d rest s s' hI hr)
+    ops (Node.init legacyBackend) nd keysInvL_init hok hrun
+  exact ⟨iter_encodeHist bk hb key hk _ hI.1, lastUpdatedBytes_eq bk hb key hk _ hI.1 n hn⟩
 
 /-- … and in every such state the purge of a contract (a felt address) is the range delete on the
 encoded leaf nodes, and leaves the leaf nodes of every other contract — what head storage reads
@@ -1168,6 +1188,15 @@ example : (brun legacyBackend (BNode.init legacyBackend) casmHistory).map
                 bn.readCasmV2 legacyBackend none .head 0x52, bn.readCasmV2 legacyBackend none (.num 5) 0x51]) =
     some [some (.ok 0xb1), some (.ok 0xb1), some .notfound, none] := by decide
 
+/-- `casm_v2_read_correct` needs no hypothesis on the migrated hash: the history with the FOREIGN
+migration hash (0xabc, juno's own is 0xb1) meets `CasmStep`, and `CompiledClassHashV2` answers 0xb1 -/
+example : OpsOK (fun ch d => CasmStep ch d) foreignMigrationHistory [] ∧
+    (brun legacyBackend (BNode.init legacyBackend) foreignMigrationHistory).map
+      (fun bn => bn.readCasmV2 legacyBackend none .head 0x51) = some (some (.ok 0xb1)) := by
+  refine ⟨?_, by decide⟩
+  simp only [foreignMigrationHistory, OpsOK, and_true]
+  exact ⟨⟨by decide, by decide, by decide, by decide, by decide⟩, ⟨by decide, by decide, by decide, by decide, by decide⟩⟩
+
 example : histKey [7, 1] 255 = [7, 1, 0, 0, 0, 0, 0, 0, 0, 255] ∧ histKey [7, 1] 256 = [7, 1, 0, 0, 0, 0, 0, 0, 1, 0] ∧
     bytesLt (histKey [7] 255) (histKey [7] 256) = true ∧ bytesLt (histKey [7] (2 ^ 32)) (histKey [7] (2 ^ 32 - 1)) = false := by
   decide
@@ -1258,6 +1287,22 @@ example :
     lastUpdatedBytes (encodeHist bk h) (hkeyBytes bk (.nonce 0x1ff)) 2 = 1 ∧
     ((encodeHist bk h).iter (hkeyBytes bk (.nonce 0x1ff))).length = 2 := by
   decide
+
+/-- `history_readers_on_bytes` / `legacy_logs_on_bytes` on the byte-boundary history itself: the encoded
+buckets of the states it reaches, read through the byte-level readers (slot 0xff of 0x200 next to slot
+0x100, which alone has an entry at block 1) -/
+example :
+    let bk : BucketIds := ⟨10, 11, 12, 13⟩
+    (run (newBackend Cfg.current) (Node.init (newBackend Cfg.current)) byteBoundaryHistory).map
+      (fun nd => (valueAtBytes (encodeHist bk nd.st.hist) (hkeyBytes bk (.storage 0x200 0xff)) 1,
+                  valueAtBytes (encodeHist bk nd.st.hist) (hkeyBytes bk (.storage 0x200 0x100)) 1,
+                  valueAtBytes (encodeHist bk nd.st.hist) (hkeyBytes bk (.storage 0x200 0x100)) 0,
+                  lastUpdatedBytes (encodeHist bk nd.st.hist) (hkeyBytes bk (.storage 0x200 0xff)) 1)) =
+      some (some 7, some 9, some 8, 0) ∧
+    (run legacyBackend (Node.init legacyBackend) byteBoundaryHistory).map
+      (fun nd => (lastUpdatedBytes (encodeHist bk nd.st.logs) (hkeyBytes bk (.storage 0x200 0xff)) 1,
+                  lastUpdatedBytes (encodeHist bk nd.st.logs) (hkeyBytes bk (.storage 0x200 0x100)) 1)) =
+      some (0, 1) := by decide
 
 example : (⟨10, 11, 12, 13⟩ : BucketIds).HistOK := ⟨by decide, by decide, by decide, by decide, by decide, by decide⟩
 
